@@ -1246,10 +1246,18 @@ fn op_fmt(c: &Value) -> R {
             Err(e) => add("SigV4Authenticator build error", e.to_string()),
         }
 
-        add("KeyTooLongError Debug", format!("{KeyTooLongError:?}"));
-        add("KeyTooLongError Debug#", format!("{KeyTooLongError:#?}"));
-        add("KeyTooLongError Display", format!("{KeyTooLongError}"));
-        add("KeyTooLongError Display#", format!("{KeyTooLongError:#}"));
+        // KeyTooLongError is obtained the way a caller obtains it (never constructed here, so that a change of its shape
+        // cannot break this build): from_str on the given secret + 9 more bytes.
+        let too_long = format!("{secret}+8Zq3LtUx");
+        match KSecretKey::<44>::from_str(&too_long) {
+            Err(e) => {
+                add("KeyTooLongError Debug", format!("{e:?}"));
+                add("KeyTooLongError Debug#", format!("{e:#?}"));
+                add("KeyTooLongError Display", format!("{e}"));
+                add("KeyTooLongError Display#", format!("{e:#}"));
+            }
+            Ok(_) => add("from_str(too long) unexpectedly accepted", String::new()),
+        }
         drop(add);
         json!({"items": items})
     }))
@@ -2101,7 +2109,12 @@ fn op_ct_trace(c: &Value) -> R {
     if max_steps == 0 || max_steps > CT_MAX_STEPS {
         return Err(format!("max_steps must be in 1..={CT_MAX_STEPS}"));
     }
-    log::set_max_level(log::LevelFilter::Off); // trace!() in the measured region must stay a no-op
+    // default: trace!() in the measured region stays a no-op; with "log_level" the records are produced (and their arguments
+    // evaluated) inside the measured region, as in a host application that has raised the log level
+    match opt_str(c, "log_level")? {
+        Some(l) => set_log_level(l)?,
+        None => log::set_max_level(log::LevelFilter::Off),
+    }
     let _ = drain_logs();
 
     // What the server will compute: hex(HMAC-SHA256(signing key, string to sign)).
